@@ -507,6 +507,10 @@ def run(ctx: Ctx) -> None:
                        "events": [(x["e"], x["f"], x.get("cls", "")) for x in t["ev"]]})
     ctx.exhaustive = False
 
+    # concurrent stores of one path (a left-over task of the interrupted run and the resumed run): StoreRace.tla
+    from . import c05_race
+    c05_race.run(ctx, quick)
+
     # binding self-test: claim that an element recomputed by the resumed run had been completely stored
     import copy
     good = [t for i, t in enumerate(hist) if i not in rej and any(e["e"] == "call" for e in t["ev"][next(
@@ -533,6 +537,9 @@ def run(ctx: Ctx) -> None:
 
 def replay(rep: dict) -> int:
     w = rep["witness"]
+    if w.get("race"):
+        from . import c05_race
+        return c05_race.replay(w)
     print(json.dumps(w.get("meta"), indent=1))
     if "desc" not in w or "crash" not in (w.get("meta") or {}):     # protocol traces / changed-input histories: show only
         print(w.get("events") or w.get("ops"))
